@@ -300,8 +300,14 @@ func pickStore(r *Run, cfg *Stream) string {
 // wallIncreasing: baseline wall clock, strictly increasing by a drawn amount per read.
 func wallIncreasing(r *Run, clk *Clock) {
 	cs := r.T.S("clock")
+	scale := 0
 	clk.WallTick = func() int64 {
-		d := int64(1 + cs.Intn(5_000_000))
+		if scale == 0 {
+			// per run: the clock advances by nanoseconds, by less than a microsecond, or by
+			// up to milliseconds between two reads (strictly increasing in every case)
+			scale = []int{5_000_000, 3, 900, 2_000_000}[cs.Intn(4)]
+		}
+		d := int64(1 + cs.Intn(scale))
 		r.SimWallNs += d
 		return d
 	}
